@@ -13,13 +13,17 @@ CURVES_T = toy.ALL
 
 
 def _sym_jac(ex, g, tag):
-    """A symbolic point of the whole group in Jacobian coordinates with an arbitrary Z (Z = 0 iff infinity)."""
+    """A symbolic point of the whole group in Jacobian coordinates with an arbitrary Z (Z = 0 iff infinity).
+
+    Infinity is (X, Y, 0) with X != 0 and Y arbitrary: the library's INFJ is (7, 0, 0) and every representative it can
+    produce from it (blinding multiplies X by a non-zero square) keeps X non-zero on these curves (p != 7); the
+    degenerate triple (0, 0, 0) is not a value the library builds and is outside the claim."""
     d = ex.int(f"d{tag}", 0, g.N - 1)
     z = ex.int(f"z{tag}", 1, g.p - 1)
     p = g.p
     x, y = g.xs[d], g.ys[d]
     zz = z * z % p
-    return d, (ite(d == 0, ex.int(f"jx{tag}", 0, p - 1), x * zz % p), ite(d == 0, ex.int(f"jy{tag}", 0, p - 1), y * zz * z % p), ite(d == 0, 0, z))
+    return d, (ite(d == 0, ex.int(f"jx{tag}", 1, p - 1), x * zz % p), ite(d == 0, ex.int(f"jy{tag}", 0, p - 1), y * zz * z % p), ite(d == 0, 0, z))
 
 
 def _jac_is(g, PJ, d):
@@ -76,7 +80,7 @@ def add_aff(ex, ec):
     on = ec.is_on_curve((x, y))
     return {"add_aff_var": sand(S[0] == want[0], S[1] == want[1]), "double_aff_var": sand(D[0] == wantd[0], D[1] == wantd[1]),
             "aff_from_jac_var": sand(A[0] == want3[0], A[1] == want3[1]),
-            "is_on_curve_iff_in_group_or_inf": iff(on, sor(g.idx_of_aff(x, y) >= 0, sand(x == INF[0], y == INF[1])))}
+            "is_on_curve_iff_in_group_or_inf": iff(on, sor(g.idx_of_aff(x, y) >= 0, y == 0))}
 
 
 def _mult_params(tier):
@@ -117,13 +121,14 @@ def public_mult(ex, ec):
     m = ex.int("m", -n, 3 * n)
     x = ex.int("x", 0, g.p - 1)
     y = ex.int("y", 0, g.p - 1)
-    d = g.idx_of_aff(x, y)
+    # the library's documented affine convention: any pair with y == 0 is the point at infinity (alias.INF = (5, 0))
+    d = ite(y == 0, 0, g.idx_of_aff(x, y))
     try:
         R = curve_mod.mult(m, (x, y), ec)
     except BTClibValueError:
-        return ex.refuse("BTClibValueError", refused_only_off_curve=sand(d < 0, snot(sand(x == INF[0], y == INF[1]))))
+        return ex.refuse("BTClibValueError", refused_only_off_curve=d < 0)
     want = g.aff(g.mul_idx(m, ite(d < 0, 0, d)))
-    return {"is_m_times_Q": sand(R[0] == want[0], R[1] == want[1]), "accepted_only_on_curve": sor(d >= 0, sand(x == INF[0], y == INF[1]))}
+    return {"is_m_times_Q": sand(R[1] == want[1], sor(want[1] == 0, R[0] == want[0])), "accepted_only_on_curve": d >= 0}
 
 
 @ob("C01", "double_and_multi_mult", quick=[dict(ec="ec13_11", k=2)], thorough=[dict(ec=c, k=k) for c in ("ec13_11", "ec23_19") for k in (2, 3)],
